@@ -35,7 +35,8 @@ Lsdots == <<115,117,98,46>> \o Lex            \* the single label "sub.example"
 PatSeq == << <<>>, <<Lex>>, <<LSub, Lex>>, <<La, Lsub, Lex>>, <<Lample>>, <<LOrg>> >>
 NameSeq == << <<>>, <<Lex>>, <<LEX>>, <<Lsub, Lex>>, <<LSub, LEx>>, <<La, Lsub, Lex>>, <<Lx, Lsub, Lex>>,
               <<Lb, La, Lsub, Lex>>, <<Lxex>>, <<Lample>>, <<Lx, Lample>>, <<Lnet>>, <<Ladots, Lex>>,
-              <<Lsub>>, <<Lex, Lorg>>, <<Lorg>>, <<Lsdots>>, <<Lb, Lx, Lsub, Lex>> >>
+              <<Lsub>>, <<Lex, Lorg>>, <<Lorg>>, <<Lsdots>>, <<Lb, Lx, Lsub, Lex>>,
+              <<Lx, Lb, Lx, Lsub, Lex>>, <<La, Lb, Lx, Lex>>, <<Lx, Lb, La, Lsub, Lex>> >>      \* 1..3 labels below the closest pattern
 QTypes == <<1, TypeDS, 2>>
 \* (opcode, rd, cd) of the request given to the multiplexer
 Flavours == << <<0,0,0>>, <<0,1,1>>, <<0,1,0>>, <<4,1,1>>, <<5,0,1>>, <<0,0,1>> >>
@@ -140,7 +141,7 @@ RouteVector(w) ==
     \* no question: nothing to match.  REFUSED; whether the root pattern, "the last resort", should get it
     \* is not said: admitted as well.                                                              \* AMBIG
     [kind |-> "route", pats |-> [k \in 1..Len(pl) |-> Present(PatSeq[pl[k]])], patidx |-> pl,
-     hasq |-> FALSE, qname |-> <<>>, qtype |-> 0, hdr |-> h, cls |-> "noquestion", extraq |-> xq,
+     hasq |-> FALSE, qname |-> <<>>, qtype |-> 0, hdr |-> h, cls |-> "noquestion", extraq |-> xq, emptyrefused |-> TRUE,
      admitted |-> IF 1 \in idx THEN <<1>> ELSE <<>>, refused |-> TRUE, past |-> <<>>,
      exp |-> ReplyExpect(h, "refused")]
   ELSE
@@ -151,6 +152,7 @@ RouteVector(w) ==
         past == { IdxOf(p) : p \in PastNearest(PSet, qn, qt) } IN
     [kind |-> "route", pats |-> [k \in 1..Len(pl) |-> Present(PatSeq[pl[k]])], patidx |-> pl,
      hasq |-> TRUE, qname |-> Present(qn), qtype |-> qt, hdr |-> h, cls |-> RouteClass(PSet, qn, qt), extraq |-> xq,
+     emptyrefused |-> Refused \in RouteSet({}, qn, qt),      \* the same request while nothing is registered
      admitted |-> SelectSeq(ord, LAMBDA i : i \in adm), refused |-> Refused \in R,
      past |-> SelectSeq(ord, LAMBDA i : i \in past),
      exp |-> ReplyExpect(h, "refused")]
